@@ -32,17 +32,18 @@ use serde_json::value::RawValue;
 use tokio::sync::{mpsc, oneshot};
 use tokio_util::compat::{Compat, TokioAsyncReadCompatExt};
 
-/// Three subscription methods: A and B are `register_subscription` (async handler, closing
-/// notification), C is `register_subscription_raw` (sync callback, no handler future, no closing
-/// notification) and its notification name EQUALS its subscribe name.  Every subscribe and
+/// Four subscription methods: A and B are `register_subscription` (async handler, closing
+/// notification), C and D are `register_subscription_raw` (sync callback, no handler future, no closing
+/// notification); D's notification name EQUALS its subscribe name, all others differ.  Every subscribe and
 /// unsubscribe method also has an alias (`register_alias`), and an ordinary method `echo` and an
 /// ordinary method whose name extends a subscribe name (`subA_info`) live in the same module.
-pub const NMETH: usize = 3;
-pub const SUB_NAMES: [&str; NMETH] = ["subA", "subB", "subC"];
-pub const NOTIF_NAMES: [&str; NMETH] = ["nA", "nB", "subC"];
-pub const UNSUB_NAMES: [&str; NMETH] = ["unsubA", "unsubB", "unsubC"];
-pub const SUB_ALIASES: [&str; NMETH] = ["al_subA", "subscribe_b", "subC2"];
-pub const UNSUB_ALIASES: [&str; NMETH] = ["al_unsubA", "unsubscribe_b", "unsubC2"];
+pub const NMETH: usize = 4;
+pub const SUB_NAMES: [&str; NMETH] = ["subA", "subB", "subC", "subD"];
+/// every method's notification name differs from its subscribe name, except D's, which coincides
+pub const NOTIF_NAMES: [&str; NMETH] = ["nA", "nB", "nC", "subD"];
+pub const UNSUB_NAMES: [&str; NMETH] = ["unsubA", "unsubB", "unsubC", "unsubD"];
+pub const SUB_ALIASES: [&str; NMETH] = ["al_subA", "subscribe_b", "subC2", "subD2"];
+pub const UNSUB_ALIASES: [&str; NMETH] = ["al_unsubA", "unsubscribe_b", "unsubC2", "unsubD2"];
 /// methods registered with `register_subscription_raw`
 pub fn raw_meth(m: usize) -> bool {
 	m >= 2
@@ -249,6 +250,8 @@ pub struct Env {
 	pub qcap: u32,
 	/// lowlevel mode: the tasks driving the connection futures `ws::connect` returned, by connection id
 	pub conn_futs: Arc<Mutex<Vec<(u32, tokio::task::JoinHandle<()>)>>>,
+	/// manual mode: the per-message task of the most recent admitted subscribe call (it owns the call's future)
+	pub last_call: Option<tokio::task::JoinHandle<()>>,
 }
 
 fn server_cfg(cap: u32, qcap: u32, ids: Arc<CounterIds>) -> ServerConfig {
@@ -267,7 +270,7 @@ impl Env {
 		let ids = Arc::new(CounterIds::default());
 		let module = build_module(shared.clone());
 		let methods: Methods = module.into();
-		let mut env = Env { shared, ids: ids.clone(), methods: methods.clone(), conns: vec![], server_handle: None, stop_handle: None, cap, qcap, conn_futs: Arc::new(Mutex::new(vec![])) };
+		let mut env = Env { shared, ids: ids.clone(), methods: methods.clone(), conns: vec![], server_handle: None, stop_handle: None, cap, qcap, conn_futs: Arc::new(Mutex::new(vec![])), last_call: None };
 		if eager {
 			let (stop_handle, server_handle) = stop_channel();
 			let builder: TowerServiceBuilder<_, _> =
@@ -386,13 +389,14 @@ impl Env {
 			Some(p) => {
 				let ids = SharedIds(self.ids.clone());
 				let conn_id = ConnectionId(mc.conn_id);
-				tokio::spawn(async move {
+				let call = tokio::spawn(async move {
 					let st = SubscriptionState { conn_id, id_provider: &ids, subscription_permit: p };
 					let rp = (cb)(id, Params::new(None), sink.clone(), st, Default::default()).await;
 					if rp.is_method_call() {
 						let _ = sink.send(rp.into_json()).await;
 					}
 				});
+				self.last_call = Some(call);
 				"called"
 			}
 		}
@@ -507,11 +511,13 @@ pub struct SubCtl {
 	pub sinks: Vec<SubscriptionSink>,
 	pub ret_tx: Option<oneshot::Sender<Ret>>,
 	pub gone: Arc<Mutex<bool>>,
+	/// manual mode: the task that owns the subscribe call's future (`ss cancelcall` aborts it)
+	pub call: Option<tokio::task::JoinHandle<()>>,
 }
 
 impl SubCtl {
 	pub fn from_handover(h: Handover) -> SubCtl {
-		SubCtl { conn: h.conn, sid: h.sid.clone(), meth: h.meth, pending: h.pending, sinks: vec![], ret_tx: h.ret_tx, gone: h.gone }
+		SubCtl { conn: h.conn, sid: h.sid.clone(), meth: h.meth, pending: h.pending, sinks: vec![], ret_tx: h.ret_tx, gone: h.gone, call: None }
 	}
 	pub fn handler_gone(&self) -> bool {
 		*self.gone.lock().unwrap()
@@ -758,6 +764,8 @@ pub struct BSub {
 	/// the id provider handed this id out again while this subscription was still registered and
 	/// the newer one was accepted: the newer subscription has taken over the (connection, id) entry
 	pub displaced: bool,
+	/// the subscribe call was cancelled while the sink was pending: accept must fail, nothing may remain
+	pub call_dead: bool,
 }
 
 impl BSub {
@@ -1125,6 +1133,9 @@ impl CaseRun {
 						if !serving_before {
 							oracle_merge(orc, Err(format!("accept succeeded on closed connection {c}")));
 						}
+						if self.book.subs[k].call_dead {
+							oracle_merge(orc, Err(format!("accept of sub {} succeeded although its subscribe call had been cancelled", self.book.subs[k].sid)));
+						}
 						if settle {
 							barrier().await;
 						}
@@ -1132,7 +1143,7 @@ impl CaseRun {
 					}
 					Ok(Err(_)) => {
 						self.book.subs[k].phase = BPhase::AcceptFailed;
-						if serving_before {
+						if serving_before && !self.book.subs[k].call_dead {
 							oracle_merge(orc, Err(format!("accept failed although connection {c} is open")));
 						}
 						if settle {
@@ -1250,6 +1261,9 @@ impl CaseRun {
 						if r == "called" { "?".into() } else { r.into() }
 					};
 					let new = self.collect_handovers();
+					if let Some(&k) = new.first() {
+						self.subs[k].call = self.env.last_call.take();
+					}
 					let res = if let Some(&k) = new.first() {
 						let h = &self.subs[k];
 						self.book.subs.push(BSub {
@@ -1268,6 +1282,7 @@ impl CaseRun {
 							resp_seen: false,
 							closed_reported: false,
 							displaced: false,
+							call_dead: false,
 						});
 						if h.sid != sid {
 							oracle_merge(&mut orc, Err(format!("handler got subscription id {}, the id provider handed out {sid}", h.sid)));
@@ -1338,7 +1353,9 @@ impl CaseRun {
 					"bad".into()
 				} else {
 					let c = self.subs[k].conn;
-					let blocked = !self.env.closed(c) && self.subs[k].pending.as_ref().unwrap().capacity() == 0;
+					// (a sink dropped after its call was cancelled writes nothing: nobody is left to answer the call)
+					let writes = !(verb == "droppending" && self.book.subs[k].call_dead);
+					let blocked = writes && !self.env.closed(c) && self.subs[k].pending.as_ref().unwrap().capacity() == 0;
 					if blocked {
 						"blocked".into()
 					} else {
@@ -1387,6 +1404,20 @@ impl CaseRun {
 					self.parked.push((k, p, h));
 					barrier().await;
 					"parked".into()
+				}
+			}
+			// the future of the subscribe call is dropped (a per-call timeout of a middleware, a cancelled
+			// in-process call) while the handler still holds the pending sink
+			"cancelcall" => {
+				let Some(k) = num(2) else { return bad("bad-op") };
+				let k = k as usize;
+				if self.eager || k >= self.subs.len() || self.subs[k].pending.is_none() || self.subs[k].call.is_none() {
+					"bad".into()
+				} else {
+					self.subs[k].call.take().unwrap().abort();
+					self.book.subs[k].call_dead = true;
+					barrier().await;
+					"done".into()
 				}
 			}
 			// a handler task: `let sink = pending.accept().await?; sink.send(p).await` — accept() itself is
@@ -1863,6 +1894,9 @@ pub fn gen_line(rng: &mut Rng, run: &CaseRun, g: &mut Gen, pf: &Profile) -> Stri
 			opts.push((pf.w_burst, format!("ss acceptsend {k} PAY {}", pick_how(rng))));
 			opts.push((2, format!("ss reject {k} {}", *rng.pick(&[-32000i32, -1, 7, -32602, 2, 1, -32001]))));
 			opts.push((1, format!("ss droppending {k}")));
+			if !run.eager && s.call.is_some() {
+				opts.push((2, format!("ss cancelcall {k}")));
+			}
 			// accept() called whatever the queue looks like, first send right behind it
 			opts.push((if run.eager { 1 } else { pf.w_accept / 2 + 1 }, format!("ss parkacceptsend {k} PAY {}", *rng.pick(&["sn", "sc"]))));
 			opts.push((1, format!("ss ident {k}")));
@@ -2008,7 +2042,7 @@ fn count_axes(out: &mut Out, line: &str, res: &str) {
 	match w[1] {
 		"sub" if w.len() == 6 => {
 			out.count(&format!("axis.sub-spelling.{}", w[4].parse::<u64>().unwrap_or(0) % SUB_SPELLINGS));
-			out.count(&format!("axis.sub-method.{}", match w[3] { "0" => "register_subscription(A)", "1" => "register_subscription(B)", _ => "register_subscription_raw(C)" }));
+			out.count(&format!("axis.sub-method.{}", match w[3] { "0" => "register_subscription(A)", "1" => "register_subscription(B)", "2" => "register_subscription_raw(C)", _ => "register_subscription_raw(D,notif=sub-name)" }));
 			let kind = match parse_sid_token(w[5]) {
 				Some(SubscriptionId::Num(_)) => "num",
 				Some(SubscriptionId::Str(s)) if s.parse::<u64>().is_ok() => "digit-string",
